@@ -104,10 +104,24 @@ def check(ctx):
                     cli2 = cli if cli else ["-%s" % other["flag"], str(defaults[other["yaml"]])]
                     cases.append({"id": len(cases), "env": env, "file": file, "cli": cli2, "cfglast": True})
                     meta.append((f, vs, s))
+    # a configuration file that is there but provides no value for the option: unparsable (a tab for indentation), or
+    # well-formed with an ill-typed value for ANOTHER key - the environment's value stands (the command line's, if given)
+    other_int = next(x for x in fields if x["kind"] == "int" and x["flag"])
+    for idx, f in enumerate(fields):
+        if not f["flag"] or f["yaml"] == other_int["yaml"]:
+            continue
+        vs = value_sets(f, defaults[f["yaml"]], idx)[0]
+        envv = yaml_val(f["kind"], vs["env"]) if f["kind"] != "string" else str(vs["env"])
+        if envv == "":
+            continue
+        for broken in ("verbose: true\n\tstats-enabled: [\n", "%s: many\n" % other_int["yaml"]):
+            for with_cli in (False, True):
+                cases.append({"id": len(cases), "env": {f["env"]: envv}, "file": broken, "cli": cli_args(f, vs["cli"]) if with_cli else []})
+                meta.append((f, vs, {"env": True, "file": False, "cli": with_cli, "winner": "cli" if with_cli else "env", "broken_file": True}))
     res = run(cases)
     for c, (f, vs, s), r in zip(cases, meta, res):
         srcs = [x for x in ("env", "file", "cli") if s[x]]
-        ctx.count([f["yaml"], srcs, [str(vs[x]) for x in srcs], c.get("cfglast", False)], nontrivial=bool(srcs))
+        ctx.count([f["yaml"], srcs, [str(vs[x]) for x in srcs], c.get("cfglast", False), c["file"] if s.get("broken_file") else ""], nontrivial=bool(srcs))
         if r.get("panic"):
             ctx.violation("flagSet panicked for option %s" % f["yaml"], {"case": c})
             continue
@@ -118,7 +132,7 @@ def check(ctx):
                           % (f["yaml"], f["kind"], srcs, {x: vs[x] for x in srcs}, s["winner"], want, got[f["yaml"]]),
                           {"case": c, "option": f}, key="precedence:" + s["winner"])
             continue
-        others = [k for k in got if k != f["yaml"] and got[k] != defaults[k]]
+        others = [k for k in got if k != f["yaml"] and got[k] != defaults[k]] if not s.get("broken_file") else []
         if others:
             ctx.violation("setting option %s changed other options: %s" % (f["yaml"], others), {"case": c})
     ctx.traces_validated += len(cases)
